@@ -11,7 +11,7 @@ corr-S  : the Coq-extracted assembler front end (Model/WfCode.v: mode table, lab
 from lib.common import *
 from lib.asmcorr import *
 from lib.asmsel import *
-from lib.gen_c import gen_program
+from lib.gen_c import gen_program, nested_inline_program
 from lib.pipeline import *
 from lib.coexec import make_layout, LayoutError
 
@@ -96,6 +96,8 @@ def run(ctx):
         o = [dict(inline=True, calls=True), dict(inline=True, max_stmts=40, max_depth=3), dict(superchip=True, hw=True),
              dict(inline=True, bait=True, max_stmts=25)][i % 4]
         srcs['p%d' % i] = gen_program(rng, o).source()
+    for i in range(60 if quick else 1500):
+        srcs['n%d' % i] = nested_inline_program(rng)
     srcs.update(GOTO_PROGRAMS)
     srcs.update(CLASH_PROGRAMS)
     bad, nfun, stats = wf_pass(ctx, srcs, levels)
